@@ -267,3 +267,13 @@ func (a *btcAdapter) GetOnchainBalance() (uint64, error) {
 	defer a.b.n.w.mu.Unlock()
 	return a.b.n.Cfg.BtcBalance, nil
 }
+
+// OwnsScriptLocked is OwnsScript for online monitors (world lock already held).
+func (b *BtcWallet) OwnsScriptLocked(s []byte) bool {
+	for _, v := range b.Addrs {
+		if bytes.Equal(v, s) {
+			return true
+		}
+	}
+	return false
+}
